@@ -951,7 +951,7 @@ fn op_key(k: &str) -> &'static str {
         "new", "clone", "drop", "move", "eq", "query", "into_zoned", "zoned_add",
         "zoned_with_tz", "extract_tz", "to_ambiguous", "resolve", "send", "recv",
         "swap_shared", "crash", "zoned_make", "zoned_mutate", "zoned_compare", "zoned_pair",
-        "zoned_sweep", "tz_make", "amb_op"
+        "zoned_sweep", "zoned_span_rel", "tz_make", "amb_op"
     )
 }
 
